@@ -26,8 +26,12 @@ STRENGTHENED = {
     "C16_4": "another solver between core calls", "C17_3": "directed unsatisfiable-group histories", "C19_3": "cache evictions during a call", "C19_4": "backend calls that raise",
     "C20_3": "fresh-symbol round", "C20_4": "backend downsize half-way", "C23_4": "regions in another insertion order", "C24_4": "same range, different variables behind Ifs",
     "C26_3": "copies taken right after an add", "C26_4": "solvers combined after solving",
+    "C10_2": "every float special value x every way of writing the equality", "C17_4": "the faulted question asked again first", "C18_3": "identity-hashed user annotation round trips", "C18_4": "first questions on fresh copies of a solver stored before any query",
+    "C11_5": "optimum, copy, optimum in the other signedness", "C13_5": "annotated and bare duplicate in one batch with a pinning equality", "C14_5": "a disturbance step run in a worker thread", "C14_6": "bystander of a merge of relatives",
+    "C21_5": "values derived from an operand compared with it", "C21_6": "word-width ranges wrapping around zero against small constants", "C22_6": "union/widen written as expressions, with a reversed copy of the same value", "C25_6": "masks ending below, at and above the extended value",
+    "C06_6": "annotation class with per-instance flags", "C06_7": "plain Python floats as operands, earlier expressions kept alive", "C12_6": "bystander of a merge of relatives", "C13_6": "approximate half of the parts of a split hybrid", "C22_5": "operand unchanged after the operation",
 }
-CROSS_ONLY = {"C06_2": "C18", "C13_4": "C15", "C02_3": "C26"}
+CROSS_ONLY = {"C06_2": "C18", "C13_4": "C15", "C02_3": "C26", "C06_6": "C07", "C06_7": "C02", "C12_6": "C14", "C13_6": "C15", "C22_5": "C21"}
 
 
 def main(files):
